@@ -186,7 +186,7 @@ impl Processor {
         let query_id = QueryId;
         let handle = self.queries.handle(query_id);
         handle.set_state(QueryState::Preparing(req))?;
-        let guard = handle.remove_query_on_drop();
+        let guard = handle.remove_query_on_drop(QueryStatus::Preparing);
 
         let id = transport.identity();
         let [right, left] = id.others();
@@ -481,7 +481,10 @@ impl Processor {
                 Some(QueryState::Completed(result)) => return result.map_err(Into::into),
                 Some(QueryState::Running(handle)) => {
                     queries.insert(query_id, QueryState::AwaitingCompletion);
-                    CompletionHandle::new(RemoveQuery::new(query_id, &self.queries), handle)
+                    CompletionHandle::new(
+                        RemoveQuery::new(query_id, &self.queries, QueryStatus::AwaitingCompletion),
+                        handle,
+                    )
                 }
                 Some(state) => {
                     let state_error = StateError::InvalidState {
@@ -522,11 +525,17 @@ impl Processor {
     /// If failed to obtain exclusive access to the query collection.
     pub fn kill(&self, query_id: QueryId) -> Result<QueryKilled, QueryKillStatus> {
         let mut queries = self.queries.inner.lock().unwrap();
-        let Some(state) = queries.remove(&query_id) else {
-            return Err(QueryKillStatus::NoSuchQuery(query_id));
-        };
+        match queries.get(&query_id) {
+            None => return Err(QueryKillStatus::NoSuchQuery(query_id)),
+            // The task handle now belongs to the pending `complete` request, which also
+            // unregisters the query when it is done; the task cannot be stopped from here.
+            Some(QueryState::AwaitingCompletion) => {
+                return Err(QueryKillStatus::AwaitingCompletion(query_id));
+            }
+            Some(_) => {}
+        }
 
-        if let QueryState::Running(handle) = state {
+        if let Some(QueryState::Running(handle)) = queries.remove(&query_id) {
             handle.join_handle.abort();
         }
 
@@ -541,6 +550,8 @@ pub struct QueryKilled(pub QueryId);
 pub enum QueryKillStatus {
     #[error("failed to kill a query: {0} does not exist.")]
     NoSuchQuery(QueryId),
+    #[error("failed to kill a query: the results of {0} are being collected.")]
+    AwaitingCompletion(QueryId),
 }
 
 #[cfg(all(test, unit_test))]
